@@ -2,7 +2,7 @@
    the C19/ files; Print Assumptions is evaluated by ./check on every run. *)
 From Coq Require Import List ZArith Bool Permutation.
 From TskVerif Require Import Base.Common C19.Model C19.IbdAlg C19.RunsProofs C19.StoreProofs
-  C19.SpecProofs C19.AlgProofs C19.SliceProofs C19.RefineProofs C19.TwoPos C19.FullProofs C19.GroupProofs C19.TotalProofs C19.FacadeProofs C19.StoreSpec C19.QueueProofs.
+  C19.SpecProofs C19.AlgProofs C19.SliceProofs C19.RefineProofs C19.TwoPos C19.FullProofs C19.GroupProofs C19.TotalProofs C19.FacadeProofs C19.StoreSpec C19.QueueProofs C19.SoundProofs.
 Import ListNotations.
 Open Scope Z_scope.
 
@@ -342,3 +342,30 @@ Theorem queue_growth_mutant_refuted :
   exists (cap : nat) (xs : list seg) (q : cqueue),
     (1 <= cap)%nat /\ cq_fill_mutant (mkCQ cap []) xs = Ok q /\ cq_items q <> xs.
 Proof. exact queue_growth_mutant_refuted_lemma. Qed.
+
+(* ---- record-level soundness --------------------------------------------------------------------------- *)
+
+(* For every valid case, EVERY segment recorded by the algorithm model (filters included) belongs to a
+   requested pair of two different nodes, is one of the specification's (filtered) segments of that pair,
+   and is a shared-path interval with the recorded MRCA: at every position of it the specification's
+   label of the pair exists and its MRCA is the recorded node. *)
+Theorem every_record_is_spec_segment :
+  forall (c : case) (out : list record), case_valid c = true -> ibd_records c = Ok out ->
+    forall r, In r out ->
+      rec_a r <> rec_b r /\ pair_requested c (rec_a r) (rec_b r) = true /\
+      exists segs, pair_segments_filtered c (rec_a r) (rec_b r) = Ok segs /\ In (rec_seg r) segs /\
+        forall x, seg_left (rec_seg r) <= x < seg_right (rec_seg r) ->
+          exists lab, label_at (spec_fuel c) (cedges c) x (rec_a r) (rec_b r) = Ok (Some lab) /\
+                      label_mrca lab = seg_node (rec_seg r).
+Proof. exact every_record_is_spec_segment_lemma. Qed.
+
+(* ... and conversely every (filtered) specification segment of a requested pair is recorded, with the
+   same multiplicity *)
+Theorem every_spec_segment_is_recorded :
+  forall (c : case) (out : list record) (a b : Z) (segs : list seg),
+    case_valid c = true -> ibd_records c = Ok out -> a <> b -> pair_requested c a b = true ->
+    pair_segments_filtered c a b = Ok segs ->
+    forall s, In s segs ->
+      exists r, In r out /\ pair_is a b r = true /\ rec_seg r = s /\
+                count_occ_seg s (map rec_seg (filter (pair_is a b) out)) = count_occ_seg s segs.
+Proof. exact every_spec_segment_is_recorded_lemma. Qed.
